@@ -247,3 +247,19 @@ PROPS["C07"] = {
     "level_text": "seeded search over session source x spoofed headers x option combinations, observed at the upstream",
     "assumptions": COMMON_ASSUMPTIONS + ["repeated fields are compared modulo RFC 9110 list combination (joined with ','); set-basic-auth without a password is not judged"],
 }
+
+PROPS["C17"] = {
+    "level": "exploration",
+    "quick_runs": 500, "quick_budget_s": 150, "thorough_budget_s": 600,
+    "rule": "one run = one world (1-10 upstream rules from: catch-all, nested prefixes /api/ and /api/v2/, sibling /apix/, exact path, base path, three rewrite rules with capture "
+            "groups incl. a longer overlapping pattern and a group swap, a static upstream; pass-host-header per rule; raw-path proxying on/off; four FakeUpstream hosts) + a real login "
+            "+ 40-79 authenticated requests: 13 prefixes x 0-3 segments from an alphabet with %2F, %2e, %20, +, ;, %-encoded and raw UTF-8, %3F, %25 x 12 queries x 9 methods x 0-5 "
+            "headers (repeated, lower-case, unusual names, empty values, hop-by-hop) x bodies 0 B - 1 MiB fixed or chunked with seeded chunk sizes; the upstream answers with a seeded "
+            "status (14 codes), headers (Set-Cookie x2, Location, repeated fields, WWW-Authenticate) and body up to 70 kB, or is faulted (refuse / reset / hang, 8%); the real "
+            "http.Transport writes to a net.Pipe and a real http.Server parses it; oracle: exactly the upstream named by an independent longest-prefix / longest-pattern model, "
+            "request-target byte-equal (rewrite rules: path per rule, query compared as parsed values), method, body hash, Host, every end-to-end header modulo list combination, no "
+            "undocumented additions; response status, headers and body hash relayed; faults => 502; non-trivial = at least one request was proxied; distinct = rule set + event hash",
+    "level_text": "seeded search over upstream rule sets x request / response shapes over the real transport, with upstream faults",
+    "assumptions": COMMON_ASSUMPTIONS + ["ties and plain-vs-rewrite overlaps other than with the catch-all are not generated; on rewrite rules the query is compared as parsed values (the proxy re-encodes it)",
+                                          "hop-by-hop fields, framing, the transport's own Accept-Encoding, X-Forwarded-For, identity headers and GAP-* are excluded"],
+}
